@@ -59,6 +59,9 @@ def parseRes (s : String) : Option (Option Res) :=
   else if s = "own" then some (some .retOwn)
   else if s = "t" then some (some (.retBool true))
   else if s = "f" then some (some (.retBool false))
+  -- an exception object that is neither a job's own nor a scheduler's TimeoutError (layer A does not look at it;
+  -- layer B reports it as a `verdict` difference)
+  else if s = "x?" then some (some (.exc (.tmo 0)))
   else if s.startsWith "xj" then (s.drop 2).toString.toNat?.map fun k => some (.exc (.byJob k))
   else if s.startsWith "xt" then (s.drop 2).toString.toNat?.map fun k => some (.exc (.tmo k))
   else none
@@ -271,6 +274,13 @@ def replayB (c : Cfg) (evs : List ObsB) (diag : List (Nat × Bool × Bool)) : St
         | some st' =>
           diffs := diffs.push s!"{i} slot-limit {whyRejectB c st (.grant j)}"
           nxt := some st'
+        | none => pure ()
+      | .tidyReturn s _ | .sdWaitReturn s _ | .sdTidyReturn s _ =>
+        -- is it only the verdict that cannot be formed (no critical job of `s` raised the observed exception)?
+        -- then let the run end as a non-critical one; the observed result is adopted below (difference `verdict`)
+        let c' := { c with critical := fun j => if j = s then false else c.critical j }
+        match stepB c' st o.ev with
+        | some st' => nxt := some st'
         | none => pure ()
       | _ => pure ()
     match nxt with
